@@ -80,6 +80,17 @@ pub fn session_variants(r: &mut Rng, events: &mut Vec<Event>, rerun_den: u64, re
     for i in 0..n {
         let ev = events[i].clone();
         if let Op::SessionNew { .. } = &ev.op { prev_text.remove(&ev.actor); }
+        // (a change of how literals are written makes an already rendered one-line text mean something else)
+        if let Op::Admin(a) = &ev.op { if matches!(a, AdminOp::SetDecimalSep { .. } | AdminOp::SetThousandSep { .. } | AdminOp::SetDateRule { .. }) { prev_text.clear(); } }
+        if let Op::SessionText { .. } = &ev.op {
+            // the session's one-line text evaluated AGAIN, without a new text, only now - after whatever the
+            // administrator and the other clients did since (a default zone or a rate may have changed)
+            if let Some(p) = prev_text.get(&ev.actor) {
+                if p.lines.len() == 1 && !p.trailing_nl && ev.clock.is_frozen() && rerun_den > 0 && r.chance(1, rerun_den + 1) {
+                    out.push(Event { actor: ev.actor, op: Op::SessionRerun, clock: ev.clock.clone() });
+                }
+            }
+        }
         if let Op::SessionText { text } = &ev.op {
             // the session's PREVIOUS text once more, just before its next one: everything that happened in
             // between (administrator calls, other clients, clock advances) lies between the two copies
